@@ -56,20 +56,25 @@ fn build(cfg: &Cfg) -> World {
     // A: stream 1 with a burst longer than B's window (writer blocks), reader waits for the reply
     let burst = cfg.rwnd.1 as usize + 2;
     w.spawn_opener(0, 1, vec![1], 1, EndPlan::Split(vec![Op::Burst(burst, 1), Op::Shutdown, Op::W(1)], vec![Op::ReadToEof(4)]));
-    if cfg.variant >= 1 {
+    if cfg.variant == 1 {
         w.spawn_opener(0, 3, vec![3], 3, EndPlan::SeqKeep(vec![Op::ReadN(3, 3), Op::W(2), Op::Drop]));
     }
+    let lean = cfg.variant == 2;
     // B: opens stream 2 (handshake pending at some point), writes and half-closes
-    w.spawn_opener(1, 2, vec![2], 2, EndPlan::SeqKeep(vec![Op::W(2), Op::ReadToEof(4), Op::W(1), Op::Shutdown]));
+    w.spawn_opener(1, 2, vec![2], 2, EndPlan::SeqKeep(if lean { vec![Op::W(1), Op::Shutdown] } else { vec![Op::W(2), Op::ReadToEof(4), Op::W(1), Op::Shutdown] }));
     // datagrams: A sends two, both sides wait for datagrams forever
-    w.spawn_dgram_sender(0, "dgsend.a", vec![dgram(9, b"h", 53, b"d0"), dgram(9, b"", 0, b"")], 0, false);
-    w.spawn_dgram_receiver(1, "dgrecv.b", usize::MAX, cfg.variant >= 1);
-    w.spawn_dgram_receiver(0, "dgrecv.a", usize::MAX, false);
+    w.spawn_dgram_sender(0, "dgsend.a", if lean { vec![dgram(9, b"h", 53, b"d0")] } else { vec![dgram(9, b"h", 53, b"d0"), dgram(9, b"", 0, b"")] }, 0, false);
+    w.spawn_dgram_receiver(1, "dgrecv.b", usize::MAX, cfg.variant == 1);
+    if !lean {
+        w.spawn_dgram_receiver(0, "dgrecv.a", usize::MAX, false);
+    }
     // binds: A asks B (never answered), B asks A (accepted)
     w.spawn_bind_responder(1, 1, vec![0], vec![BindAnswer::Never]);
     w.spawn_bind_requester(0, 0, 1, b"bind".to_vec(), 80);
-    w.spawn_bind_responder(0, 0, vec![], vec![BindAnswer::Accept]);
-    w.spawn_bind_requester(1, 1, 3, b"".to_vec(), 0);
+    if !lean {
+        w.spawn_bind_responder(0, 0, vec![], vec![BindAnswer::Accept]);
+        w.spawn_bind_requester(1, 1, 3, b"".to_vec(), 0);
+    }
     w
 }
 
@@ -489,12 +494,17 @@ pub fn run(args: &Args) -> Report {
             Cfg { rwnd: (1, 3), cap: 0, variant: 1 },
             Cfg { rwnd: (2, 1), cap: 1, variant: 0 },
             Cfg { rwnd: (3, 2), cap: 2, variant: 1 },
+            Cfg { rwnd: (2, 2), cap: 0, variant: 2 },
+            Cfg { rwnd: (1, 1), cap: 1, variant: 2 },
         ]
     } else {
-        vec![Cfg { rwnd: (2, 2), cap: 0, variant: 0 }]
+        vec![Cfg { rwnd: (2, 2), cap: 0, variant: 2 }, Cfg { rwnd: (2, 1), cap: 1, variant: 0 }]
     };
     for cfg in cfgs {
-        cases.push(Case { try_unbounded: false, max_k: u32::MAX, label: format!("busy scenario rwnd={:?} cap={} variant={}", cfg.rwnd, cfg.cap, cfg.variant), exec: Box::new(move |r| exec(&cfg, r)) });
+        // quick tier: the lean scenario gets every fault at every point of every <= 1-deviation schedule, the busy one
+        // every fault at every point of the canonical schedule; the thorough tier explores all of them deeper
+        let max_k = if !thorough && cfg.variant != 2 { 0 } else { u32::MAX };
+        cases.push(Case { try_unbounded: false, max_k, label: format!("{} scenario rwnd={:?} cap={} variant={}", if cfg.variant == 2 { "lean" } else { "busy" }, cfg.rwnd, cfg.cap, cfg.variant), exec: Box::new(move |r| exec(&cfg, r)) });
     }
     for n in if thorough { vec![0usize, 3, 127, 129, 140, 300] } else { vec![3usize, 140] } {
         for how in 0..3u8 {
